@@ -21,7 +21,7 @@ GEN = os.path.join(VERIF, "coq", "gen", "OwnGraph.v")
 WORK = os.path.join(vlib.BUILD, "c17")
 VARIANTS = ["ipc", "local", "ipc_threadsafe", "local_threadsafe"]
 NSLOTS = {("pubsub", 1): 6, ("pubsub", 2): 8, ("event", 1): 4, ("event", 2): 6, ("reqres", 1): 7, ("reqres", 2): 8,
-          ("blackboard", 1): 6, ("blackboard", 2): 8}
+          ("blackboard", 1): 6, ("blackboard", 2): 8, ("reqres2", 1): 9}
 
 # Candidate defects of /repo found by this check and reported to the lead, who decides between a
 # fix: commit in /repo and an entry in known_findings.json (matched by the same key).  Until then
@@ -35,6 +35,8 @@ def classify(pattern, detail):
     d = detail
     if pattern == "pubsub" and d.startswith("survivor:sample:canary:") and "subscriber" in d.split("after=")[-1].split(","):
         return "pubsub:sample-outlives-subscriber-chunk-reused"
+    if pattern == "reqres2" and re.match(r"^survivor:pending_[ab]:received-\[\]-sent-", d) and "while-response_b-is-held" not in d:
+        return "reqres:delivered-response-lost-when-sibling-polls-expired-connection"
     m = re.match(r"^leftover:node_dirx\d+:", d)
     if m:
         return "node:details-dir-left-when-port-outlives-node"
@@ -112,6 +114,10 @@ def table_rows(path):
             m = re.match(r'^\s*\((\d+), "([^"]+)", "(.*)"\);?\s', line)
             if m:
                 rows.append("resource %s.%s : %s" % (names.get(m.group(1), "?" + m.group(1)), m.group(2), m.group(3)))
+        elif sect == "own_decisions":
+            m = re.match(r'^\s*\("([^"]+)", "(.*)"\);?\s*$', line)
+            if m:
+                rows.append("decision %s : %s" % m.groups())
         elif sect == "own_policies":
             m = re.match(r'^\s*\("(\w+)", "(\w+)", "(\w+)"\)', line)
             if m:
@@ -158,7 +164,34 @@ def jobs_for(ctx, exe):
         for i in range(nsh):
             jobs.append(("rnd:%s:%s:%d:%d" % (v, p, nn, i), [exe, "rnd", v, p, str(nn), str(i), str(nsh), seed, str(count)]))
 
-    plan = {"exhaustive": [], "sampled": []}
+    def fam(v, nsh, count):
+        for i in range(nsh):
+            jobs.append(("fam:%s:reqres2:%d" % (v, i), [exe, "fam", v, "reqres2", "1", str(i), str(nsh), seed, str(count)]))
+
+    plan = {"exhaustive": [], "sampled": [], "regressions": []}
+    # minimal orders of the findings so far run on every tier
+    for v in ("ipc", "local"):
+        for p, nn, order in (("reqres2", 1, "6,3,8,7,0,1,2,4,5"), ("reqres2", 1, "3,8,7,0,1,2,4,5,6"), ("pubsub", 1, "3,0,1,2,4,5"), ("event", 1, "0,1,2,3")):
+            jobs.append(("perm:%s:%s:%s" % (v, p, order), [exe, "perm", v, p, str(nn), order]))
+            plan["regressions"].append("%s %s %s" % (v, p, order))
+    # request-response with two requests of one client in flight: the server side (server, active_a, active_b) is dropped
+    # first in each of its 6 orders, followed by client-side orders; plus unrestricted random orders of the 9 slots
+    if not th:
+        for v in VARIANTS:
+            n = 12 if v in ("ipc", "local") else 4
+            fam(v, 2, n)
+            rnd(v, "reqres2", 1, 1, 40)
+            plan["sampled"] += ["%s reqres2 server-side-first: 6 x %d of 720 client-side orders" % (v, n), "%s reqres2: 40 of 9!" % v]
+    else:
+        for v in VARIANTS:
+            if v in ("ipc", "local"):
+                fam(v, 16, 0)
+                plan["exhaustive"].append("%s reqres2 server-side-first: 6 x 720" % v)
+            else:
+                fam(v, 4, 60)
+                plan["sampled"].append("%s reqres2 server-side-first: 6 x 60" % v)
+            rnd(v, "reqres2", 1, 8, 250)
+            plan["sampled"].append("%s reqres2: 2000 of 9!" % v)
     if not th:
         for v in ("ipc", "local"):
             exh(v, "pubsub", 1, 6)
@@ -222,7 +255,7 @@ def run(ctx):
     driver = os.path.join(VERIF, "ocaml", "c17", "driver")
     try:
         graph = json.load(open(os.path.join(WORK, "OwnGraph.json")))
-        ctx.cov["generated_graph"] = {"types": len(graph["types"]), "edges": graph["edges"], "resources": graph["resources"],
+        ctx.cov["generated_graph"] = {"types": len(graph["types"]), "edges": graph["edges"], "resources": graph["resources"], "decisions": graph.get("decisions"),
                                       "policies": graph["policies"], "leaves_not_modelled": graph["leaves"]}
     except Exception as ex:
         ctx.cov["generated_graph"] = "unreadable: %r" % (ex,)
@@ -261,7 +294,10 @@ def run(ctx):
                 "listed and counted per resource kind and compared with the extracted model's state after the same drop (kind=model), and "
                 "a smoke operation runs on every survivor (publisher: 1+3 simultaneous loans, send; subscriber: receive; loan and received "
                 "sample: canary compare; notifier: notify; listener: try_wait; client: 1+3 requests; server: receive+respond; pending "
-                "response: receive + request canary; active request: canary + 1+3 responses; response: canary; writer/reader: fresh entry "
+                "response: receive + request canary; active request: canary + 1+3 responses; response: canary; family reqres2 (two requests of one "
+                "client in flight, one borrowed Response): every pending response must receive EXACTLY the responses sent to it and not yet "
+                "received (each live active request sends one per round, after the pending responses drained), zero-copy payloads are first read "
+                "in a forked child so that an unmapped segment is reported as payload-unreadable-signal-11; writer/reader: fresh entry "
                 "handle on another key / same key; entry handles: update / read-back; node: Node::list; service handle: nodes() + dynamic "
                 "config), panics caught per drop/smoke; at the end leftovers (anything but nodes/, services/, *.global_mgmt), Node::list / "
                 "Service::list must be empty and node + service are re-created under the same names with different settings and used once. "
